@@ -571,6 +571,14 @@ def run_c15(chk: Check) -> int:
             for tail in ("x", "", "!", ".", "x.1"):
                 items.append(("crafted-address", ((unit * n)[:n * 2] + tail + "(5)").encode()))
                 items.append(("crafted-address-in-block", ("1-0:1.8.0(1*kWh)\r\n" + (unit * n)[:n * 2] + tail + "(5*V)\r\n").encode()))
+    # the same inside the parentheses: values and units made of a long run of one unit followed by a character that cannot belong to a value
+    # (a validating regex with nested quantifiers backtracks exponentially exactly there)
+    for unit in ("1", "a", "1.", "ab", "0 ", "x ", "k", "W", "1,"):
+        for n in (24, 36, 60, 200):
+            for tail in ("/", "!", " ", "*", "(", "x/"):
+                run = (unit * n)[:n * 2]
+                items.append(("crafted-value", f"0-0:96.1.1({run}{tail})\r\n".encode()))
+                items.append(("crafted-unit-in-block", f"1-0:32.7.0(230.1*V)\r\n1-0:1.8.0(1*{run}{tail})\r\n".encode()))
     # numeric literal forms Python's converters accept or nearly accept, under every unit class (exponents make big integers)
     lits = ["1E9", "1e99", "1E999", "1E9999", "1E99999", "010E999976", "1E9999999", "1E-999999", "9" * 400, "0." + "0" * 400 + "1", "1_000", " 1", "+1", "-1",
             "0x10", "1.", ".5", "Infinity", "-inf", "NaN", "1e", "e5", "1E+5", "١٢٣", "1,5", "--1", "1e-5", "00"]
